@@ -221,6 +221,7 @@ def run(chk):
     from . import c01, c03
     chk.guard(c03.rule_r7, chk, rid="C08-R4")
     chk.guard(c01.rule_r6, chk, rid="C08-R5")
+    chk.guard(c03.rule_r10, chk, rid="C08-R8")
     from .. import variants
     chk.guard(variants.apply, chk, "C08-R6", [("irispie.fords.kalmans", "kalman_filter")])
     from .. import gens
